@@ -355,7 +355,9 @@ static void checkRounds(World& w, int i, const Op& op, const Obs& before, const 
 	w.distinct(hh);
 	if (st.rounds.size() > 1) w.probe("multi_round_step");
 	// (f) bounded
-	if (int(st.rounds.size()) > s.node->substitutionLimit()) {
+	// (the first activation consults the entry guards of the default configuration once before any substitution round)
+	const int roundBound = s.node->substitutionLimit() + (op.kind == OP_ENTER ? 1 : 0);
+	if (int(st.rounds.size()) > roundBound) {
 		std::snprintf(b, sizeof b, "%s: %zu guard rounds in one processing step, substitution limit is %d", h.role.c_str(), st.rounds.size(), s.node->substitutionLimit());
 		w.violate("C04.round_limit", b, i);
 	}
@@ -549,6 +551,8 @@ static void checkConfiguration(World& w, int i, const Op& op, const Obs& before,
 		for (int k = 0; k < sh.n; ++k) if (s.obs.resumable[size_t(k)]) { std::snprintf(b, sizeof b, "%s: after reset() state %d is still resumable", h.role.c_str(), k); w.violate("C02.reset", b, i); return; }
 		for (int g = 0; g < sh.n; ++g) {
 			if (!sh.isCompo(g) || ca.active[size_t(g)] < 0 || r.req[size_t(g)] < 0 || r.dontCare[size_t(g)]) continue;
+			bool fragileBelow = false; for (int x = g + 1; x < g + sh.st[size_t(g)].size; ++x) if (sh.isCompo(x) && !r.alts[size_t(x)].empty()) fragileBelow = true;
+			if (fragileBelow) break;     // a nested choice sits within float rounding of a boundary: what is built on it is not predicted
 			if (ca.active[size_t(g)] != r.req[size_t(g)] && std::find(r.alts[size_t(g)].begin(), r.alts[size_t(g)].end(), ca.active[size_t(g)]) == r.alts[size_t(g)].end()) {
 				std::snprintf(b, sizeof b, "%s: after reset() region %d has sub-state %d active; its first activation (declared strategy %d) would pick %d", h.role.c_str(), g, ca.active[size_t(g)], sh.st[size_t(g)].strategy, r.req[size_t(g)]);
 				w.violate("C02.reset", b, i); return;
@@ -596,10 +600,17 @@ static void checkConfiguration(World& w, int i, const Op& op, const Obs& before,
 	int nReal = 0;
 	std::vector<int> touched(size_t(sh.n), 0);   // by how many requests a region's choice may have been evaluated
 	std::vector<int> reqBeforeLast; std::vector<int> howBeforeLast;   // expectations before the last real request was applied
+	std::vector<std::set<int>> earlierPath(size_t(sh.n));              // prongs the paths of earlier requests assign, each request on its own
+	// scheduling requests issued by guards are applied in a later round that consults nobody
+	for (auto& e : h.trace) if (e.k == EV_ISSUE && e.a == K_SCHEDULE) { Tr t; t.kind = K_SCHEDULE; t.dest = e.b; r.apply(t, 1000); }
+	// ... and scheduling requests of vetoed rounds apply regardless
+	for (auto& rd : st.rounds) for (auto& q : rd.pending) if (q.kind == K_SCHEDULE) r.apply(q, 1000);
+	for (auto& q : before.queued) if (q.kind == K_SCHEDULE) r.apply(q, 1000);
 	int lastReal = -1; for (size_t k = 0; k < st.approved.size(); ++k) if (st.approved[k].kind != K_SCHEDULE) lastReal = int(k);
 	for (size_t k = 0; k < st.approved.size(); ++k) {
 		const Tr& q = st.approved[k];
 		if (int(k) == lastReal) { reqBeforeLast = r.req; howBeforeLast = r.how; }
+		else if (q.kind != K_SCHEDULE && q.dest >= 0 && q.dest < sh.n && int(k) < lastReal) { int c2 = q.dest; for (int p2 = sh.st[size_t(q.dest)].parent; p2 >= 0; c2 = p2, p2 = sh.st[size_t(p2)].parent) if (sh.isCompo(p2)) earlierPath[size_t(p2)].insert(sh.st[size_t(c2)].prong); }
 		if (q.kind != K_SCHEDULE && q.dest >= 0 && q.dest < sh.n) {
 			// scope: the sub-tree below the first region where the path leaves the configuration expected so far
 			int root = q.dest, c = q.dest;
@@ -610,20 +621,21 @@ static void checkConfiguration(World& w, int i, const Op& op, const Obs& before,
 			++nReal;
 		}
 		r.apply(q, int(k));
+		if (int(k) < lastReal) for (int g = 0; g < sh.n; ++g) if (r.req[size_t(g)] >= 0) earlierPath[size_t(g)].insert(r.req[size_t(g)]);   // whatever an earlier request asked of g, by path or by resolution
 	}
-	// scheduling requests issued by guards are applied in a later round that consults nobody
-	for (auto& e : h.trace) if (e.k == EV_ISSUE && e.a == K_SCHEDULE) { Tr t; t.kind = K_SCHEDULE; t.dest = e.b; r.apply(t, 1000); }
-	// ... and scheduling requests of vetoed rounds apply regardless
-	for (auto& rd : st.rounds) for (auto& q : rd.pending) if (q.kind == K_SCHEDULE) r.apply(q, 1000);
-	for (auto& q : before.queued) if (q.kind == K_SCHEDULE) r.apply(q, 1000);
 	uint64_t hh = std::hash<std::string>()(sh.name);
 	for (auto a : before.active) hh = mix64(hh, a);
 	for (auto& q : st.approved) hh = mix64(hh, uint64_t(q.kind) * 64 + uint64_t(q.dest));
 	w.distinct(hh);
 	if (nReal > 1) w.probe("multi_request_batch");
 
+	// several approved rounds in one step: each round was resolved against the registry the previous rounds left behind; the
+	// composition is C04's subject ("go through the same procedure") and is not predicted here beyond untouched regions and resumable marks
+	int approvedRounds = 0; for (auto& rd : st.rounds) if (!rd.cancelled && !rd.pending.empty()) ++approvedRounds;
+	const bool singleRound = approvedRounds == 1;
+	if (!singleRound) w.probe("multi_round_configuration_not_predicted");
 	// P1: the last real destination and its ancestors are active
-	if (w02) for (size_t k = st.approved.size(); k-- > 0;) {
+	if (w02 && singleRound) for (size_t k = st.approved.size(); k-- > 0;) {
 		const Tr& q = st.approved[k];
 		if (q.kind == K_SCHEDULE) continue;
 		w.checked("C02.destination_active");
@@ -637,12 +649,13 @@ static void checkConfiguration(World& w, int i, const Op& op, const Obs& before,
 				if (nReal > 1 && !reqBeforeLast.empty()) {
 					std::vector<std::pair<int,int>> path; int c = q.dest;
 					for (int p = sh.st[size_t(q.dest)].parent; p >= 0; c = p, p = sh.st[size_t(p)].parent) if (sh.isCompo(p)) path.emplace_back(p, sh.st[size_t(c)].prong);
+					auto setOtherwise = [&](size_t lv) { for (int v : earlierPath[size_t(path[lv].first)]) if (v != path[lv].second) return true; return false; };
 					int stop = -1;
 					for (size_t lv = 1; lv < path.size(); ++lv) {
-						const int rq = reqBeforeLast[size_t(path[lv].first)];
+						const int rq = reqBeforeLast[size_t(path[lv].first)];     // what the request slot holds by now (later requests override earlier ones level by level)
 						if ((rq < 0 || rq == path[lv].second) && cb.active[size_t(path[lv].first)] == path[lv].second) { stop = int(lv); break; }
 					}
-					if (stop >= 0) for (size_t lv = size_t(stop) + 1; lv < path.size(); ++lv) { const int rq = reqBeforeLast[size_t(path[lv].first)]; if (rq >= 0 && rq != path[lv].second) tag = "batch_later_request_not_overriding"; }
+					if (stop >= 0) for (size_t lv = size_t(stop) + 1; lv < path.size(); ++lv) if (setOtherwise(lv)) tag = "batch_later_request_not_overriding";
 					bool earlierUtility = false; for (int k2 = 0; k2 < lastReal; ++k2) if (st.approved[size_t(k2)].kind == K_UTILIZE || st.approved[size_t(k2)].kind == K_RANDOMIZE) earlierUtility = true;
 					if (tag.empty() && (earlierUtility || sh.usesUtility)) { for (auto& pc : path) if (reqBeforeLast[size_t(pc.first)] >= 0 && howBeforeLast[size_t(pc.first)] != 100) tag = "batch_later_request_not_overriding"; }
 				}
@@ -652,7 +665,7 @@ static void checkConfiguration(World& w, int i, const Op& op, const Obs& before,
 	}
 	// P2: entered / re-targeted regions picked the sub-state the rules prescribe
 	if ((s.node->caps() & CAP_BUILTIN_RNG) && r.randomResolved > 0) return;   // the built-in generator's draws are not known to the model
-	for (int g = 0; g < sh.n; ++g) {
+	if (singleRound) for (int g = 0; g < sh.n; ++g) {
 		if (!sh.isCompo(g) || r.req[size_t(g)] < 0 || ca.active[size_t(g)] < 0 || r.dontCare[size_t(g)]) continue;
 		if (!r.willBeActive(g) && g != 0) continue;
 		const int how = r.how[size_t(g)];
@@ -664,9 +677,12 @@ static void checkConfiguration(World& w, int i, const Op& op, const Obs& before,
 		if (how == K_RANDOMIZE) w.probe("random_region_resolved");
 		if (ca.active[size_t(g)] == r.req[size_t(g)]) continue;
 		if (isUtil && std::find(r.alts[size_t(g)].begin(), r.alts[size_t(g)].end(), ca.active[size_t(g)]) != r.alts[size_t(g)].end()) { w.probe("utility_within_rounding"); continue; }
+		if (isUtil) { bool fragileBelow = false; for (int x = g + 1; x < g + sh.st[size_t(g)].size; ++x) if (sh.isCompo(x) && !r.alts[size_t(x)].empty()) fragileBelow = true; if (fragileBelow) { w.probe("nested_choice_within_rounding"); continue; } }
 		if (r.conflict[size_t(g)] || touched[size_t(g)] > 1) {
 			std::snprintf(b, sizeof b, "%s: region %d: requests of one batch disagree; the later one prescribes sub-state %d but %d is active", h.role.c_str(), g, r.req[size_t(g)], ca.active[size_t(g)]);
 			// documented: a region an earlier request already resolved (as a sibling, by evaluation, or as its destination) is forwarded to, not re-resolved
+			// an earlier request that names a destination inside g is not "conflicting" with a later request that merely re-enters g's surroundings
+			if (!reqBeforeLast.empty() && reqBeforeLast[size_t(g)] >= 0 && howBeforeLast[size_t(g)] == 100 && r.how[size_t(g)] != 100) continue;
 			const bool earlierResolved = !reqBeforeLast.empty() && reqBeforeLast[size_t(g)] >= 0 && howBeforeLast[size_t(g)] != 100;
 			const bool earlierEvaluated = touched[size_t(g)] > 1 && (sh.usesUtility || nReal > 1);
 			w.violate(oracle, b, i, (earlierResolved || earlierEvaluated) && r.how[size_t(g)] != 100 ? "batch_later_request_not_overriding" : ""); return;
@@ -690,7 +706,9 @@ static void checkConfiguration(World& w, int i, const Op& op, const Obs& before,
 		w.checked("C02.untouched");
 		if (cb.active[size_t(g)] != ca.active[size_t(g)]) {
 			std::snprintf(b, sizeof b, "%s: region %d was not touched by any approved request but switched from sub-state %d to %d", h.role.c_str(), g, cb.active[size_t(g)], ca.active[size_t(g)]);
-			w.violate("C02.untouched", b, i); return;
+			// documented: evaluating utilities for one request of a batch leaves requests in every region it looked at; a later request entering such a region is served from them
+			bool utilityInBatch = false; for (auto& q : st.approved) if (q.kind == K_UTILIZE || q.kind == K_RANDOMIZE) utilityInBatch = true;
+			w.violate("C02.untouched", b, i, nReal > 1 && (utilityInBatch || sh.usesUtility) ? "batch_later_request_not_overriding" : ""); return;
 		}
 	}
 	// P4: each region remembers the sub-state it last left, or what schedule gave it
